@@ -358,7 +358,7 @@ func hasPointers(tp reflect.Type) bool {
 // copy from one pointer to another.
 func (a *archetype) copy(src, dst unsafe.Pointer, itemSize uint32) {
 	if verifOn {
-		verifRawCopy(a, dst, itemSize)
+		verifRawCopy(a, src, dst, itemSize)
 	}
 	dstSlice := (*[math.MaxInt32]byte)(dst)[:itemSize:itemSize]
 	srcSlice := (*[math.MaxInt32]byte)(src)[:itemSize:itemSize]
